@@ -148,8 +148,9 @@ func TestProp_History(t *testing.T) {
 		inMemory := rapid.IntRange(0, 9).Draw(t, "inMemory") == 0
 		if inMemory {
 			z = buffer.NewStreamLexerSize(&bytesReader{append([]byte(nil), data...)}, size)
+		} else if r = genReader(t, data, true); size == 4096 {
+			z = buffer.NewStreamLexer(r) // the constructor without a size: 4096
 		} else {
-			r = genReader(t, data, true)
 			z = buffer.NewStreamLexerSize(r, size)
 		}
 		L := len(data)
